@@ -1,0 +1,43 @@
+//go:build verif
+
+package ruleguard
+
+// VerifCommentRule describes one loaded comment rule (a goCommentRule).
+type VerifCommentRule struct {
+	Pattern       string   // the source of the compiled regexp (pat.String())
+	SubexpNames   []string // pat.SubexpNames()
+	CaptureGroups bool     // the flag that selects the submatch path in runCommentRules
+	Line          int
+	Group         string
+	Msg           string
+	Suggestion    string
+	Location      string
+	FilterSrc     string
+}
+
+// VerifCommentRules lists the comment rules of the engine's current rule set
+// in the order in which runCommentRules tries them.
+func VerifCommentRules(e *Engine) []VerifCommentRule {
+	rset := e.impl.ruleSet
+	if rset == nil || rset.universal == nil {
+		return nil
+	}
+	out := make([]VerifCommentRule, 0, len(rset.universal.commentRules))
+	for _, r := range rset.universal.commentRules {
+		v := VerifCommentRule{
+			Pattern:       r.pat.String(),
+			SubexpNames:   r.pat.SubexpNames(),
+			CaptureGroups: r.captureGroups,
+			Line:          r.base.line,
+			Msg:           r.base.msg,
+			Suggestion:    r.base.suggestion,
+			Location:      r.base.location,
+			FilterSrc:     r.base.filter.src,
+		}
+		if r.base.group != nil {
+			v.Group = r.base.group.Name
+		}
+		out = append(out, v)
+	}
+	return out
+}
